@@ -50,7 +50,19 @@ fn prim_result(parts: &[&str]) -> String {
                 h.input(&pending);
                 let (mut o1, mut o2, mut o3) = ([0u8; 64], [0u8; 64], [0u8; 64]);
                 h.hkdf(&key[..key.len().min(h.hash_len())], &data, 2, &mut o1, &mut o2, &mut o3);
-                format!("ok {a} {bb} {} {}", hex(&o1[..h.hash_len()]), hex(&o2[..h.hash_len()]))
+                // input in pieces (the shape of MixHash: h, then data), a result() in the middle, then more input
+                h.reset();
+                h.input(&pending);
+                h.input(&data);
+                let mut o4 = [0u8; 64];
+                h.result(&mut o4);
+                h.reset();
+                h.input(&pending);
+                h.input(&data);
+                h.input(&key);
+                let mut o5 = [0u8; 64];
+                h.result(&mut o5);
+                format!("ok {a} {bb} {} {} {} {}", hex(&o1[..h.hash_len()]), hex(&o2[..h.hash_len()]), hex(&o4[..h.hash_len()]), hex(&o5[..h.hash_len()]))
             },
             "hmacseq" => {
                 // several HMACs on ONE hash object (a wrapper that caches keyed state between calls must not let an
@@ -192,6 +204,11 @@ pub fn gen_prim(run: &mut Run, seed: u64, thorough: bool, light: bool) {
             for _ in 0..(if light { 1 } else { 4 }) {
                 let (a, bq, c) = (r.below(200), r.below(200), r.below(block + 1));
                 prim(&mut sc, format!("prim {res} hashseq {h} {} {} {}", hex(&r.bytes(1 + a)), hex(&r.bytes(bq)), hex(&r.bytes(c))));
+            }
+            // the shape of MixHash (h, then data) with data a whole number of blocks; short-then-aligned and
+            // aligned-then-short pieces around the block length
+            for (a, bq, c) in [(hlen, block, 3), (hlen, 2 * block, 1), (1, block, hlen), (block - 1, block, block), (block, hlen, block), (hlen, 3 * block, block), (block + 1, block, 1)] {
+                prim(&mut sc, format!("prim {res} hashseq {h} {} {} {}", hex(&r.bytes(a)), hex(&r.bytes(bq)), hex(&r.bytes(c))));
             }
             // one hash object, related keys: the same key twice, a prefix of the previous key, the previous key
             // extended, zero-padded variants, and unrelated keys in between
